@@ -148,6 +148,17 @@ def plain(v):
     return v
 
 
+class _NeverUsed:
+    pass
+
+
+def _never(ty, args, *, handlers):
+    return NotImplemented
+
+
+UNRELATED_HANDLERS = [_never]
+
+
 def run(ctx):
     def judge(boundary, i, ty, T, v, out, sub='main'):
         ctx.count('boundary_calls')
@@ -175,8 +186,15 @@ def run(ctx):
             which = rng.random()
             if which < 0.45:
                 judge('from_data', i, ty, T, v, observe(env.from_data, v, T))
-            elif which < 0.65:
+            elif which < 0.58:
                 judge('convert', i, ty, T, v, observe(env.convert, v, T))
+            elif which < 0.65:
+                # the same boundaries with custom handlers in force (handlers for a type that does not occur: they change nothing,
+                # but every converter is then looked up through the handler-aware paths)
+                if rng.random() < 0.5:
+                    judge('convert(custom=)', i, ty, T, v, observe(env.convert, v, T, custom=UNRELATED_HANDLERS))
+                else:
+                    judge('from_data(custom=)', i, ty, T, v, observe(env.from_data, v, T, custom=UNRELATED_HANDLERS))
             elif which < 0.8 and ty.k == 'dc':
                 judge('Cls.from_data', i, ty, T, v, observe(T.from_data, v))
             else:
